@@ -151,15 +151,12 @@ func arrayHasSuffix(suffix rel.Value, subject rel.Array) (rel.Value, error) {
 
 	subjectVals := subject.Values()
 	suffixVals := suffixArray.Values()
-	suffixOffset := suffixArray.Count() - 1
-
-	for _, val := range subjectVals[subject.Count()-1:] {
-		if suffixOffset > -1 && val.Equal(suffixVals[suffixOffset]) {
-			suffixOffset--
-			if suffixOffset == -1 {
-				break
-			}
-		} else {
+	offset := len(subjectVals) - len(suffixVals)
+	if offset < 0 {
+		return rel.NewBool(false), nil
+	}
+	for i, val := range suffixVals {
+		if !subjectVals[offset+i].Equal(val) {
 			return rel.NewBool(false), nil
 		}
 	}
@@ -205,25 +202,17 @@ func arrayTrimSuffix(suffix rel.Value, subject rel.Array) (rel.Value, error) {
 // Case: subject=[1,2,3,4], sub=[2,3], return 1
 // Case: subject=[1,2,3,4], sub=[2,5], return -1
 func search(subject, sub []rel.Value) int {
-	subjectOffset, subOffset := 0, 0
-
-	for ; subjectOffset < len(subject); subjectOffset++ {
-		if subOffset < len(sub) && subject[subjectOffset].Equal(sub[subOffset]) {
-			subOffset++
-		} else {
-			if subOffset > 0 && subOffset < len(sub) {
-				subOffset = 0
-				subjectOffset--
+	for start := 0; start+len(sub) <= len(subject); start++ {
+		matched := true
+		for i, v := range sub {
+			if !subject[start+i].Equal(v) {
+				matched = false
+				break
 			}
 		}
-		if subOffset == len(sub) {
-			break
+		if matched {
+			return start
 		}
-	}
-
-	if subjectOffset < len(subject) {
-		// see len(sub) > 1
-		return (subjectOffset + 1) - len(sub)
 	}
 	return -1
 }
